@@ -622,7 +622,9 @@ Proof.
   apply spec_check_known in E. destruct E as [final E]. rewrite spec_known_app in E.
   destruct (spec_known known obs1) as [mid|] eqn:E1; [|discriminate].
   destruct (spec_known_sound obs1 known mid TI E1) as [TIm [INC OUT]].
-  simpl in E. destruct (spec_step mid (GenSym i p) (OSym n k)) as [k2|] eqn:E2; [|discriminate].
+  change (spec_known mid ((GenSym i p, OSym n k) :: obs2)) with
+    (match spec_step mid (GenSym i p) (OSym n k) with VBad => None | VOk k' => spec_known k' obs2 end) in E.
+  destruct (spec_step mid (GenSym i p) (OSym n k)) as [k2|] eqn:E2; [|discriminate].
   destruct (spec_step_ok mid (GenSym i p) (OSym n k) k2 TIm E2) as [_ [_ [_ FR]]].
   apply (FR i p n k eq_refl eq_refl).
   destruct H as [[o H]|H]; [eapply OUT; eauto|apply INC; exact H].
